@@ -150,7 +150,7 @@ fn worker(args: &[String], in_process: bool) {
                 "C04" => o.nontrivial_c04,
                 _ => match scenario {
                     Scenario::General => o.nontrivial_c01 || o.nontrivial_c02,
-                    Scenario::Gc | Scenario::GcSmall => o.nontrivial_c03,
+                    Scenario::Gc | Scenario::GcSmall | Scenario::GcCross => o.nontrivial_c03,
                     Scenario::Twins => o.nontrivial_c04,
                 },
             };
@@ -190,6 +190,7 @@ fn scenario_salt(s: Scenario) -> u64 {
         Scenario::Gc => 0x2222,
         Scenario::Twins => 0x3333,
         Scenario::GcSmall => 0x4444,
+        Scenario::GcCross => 0x5555,
     }
 }
 
@@ -403,8 +404,8 @@ fn plan_for(property: &str, tier: &str) -> Plan {
             nontrivial_counter: "nontrivial.c02",
         },
         "C03" => Plan {
-            scenarios: vec![(Scenario::Gc, 220_000 * scale), (Scenario::General, 80_000 * scale)],
-            rule: "cases biased to capacities 1-5, GC, retain/clear/never_gc, intern_ref/intern_value and stored-reference lookups; model computes the must-keep closure (LRU of distinct top-level calls within capacity + retained) at each GC; an unlicensed execution of a must-keep node, a stored reference reading a different value, a panic or an abnormal child exit is a violation. Non-trivial: at least one GC that both kept and discarded nodes. Distinct = distinct canonical case hash.",
+            scenarios: vec![(Scenario::Gc, 160_000 * scale), (Scenario::GcCross, 90_000 * scale), (Scenario::General, 50_000 * scale)],
+            rule: "cases biased to capacities 1-5, GC, retain/clear/never_gc, intern_ref/intern_value and stored-reference lookups; model computes the must-keep closure (LRU of distinct top-level calls within capacity + retained) at each GC; an unlicensed execution of a must-keep node, a stored reference reading a different value, a panic or an abnormal child exit is a violation. Scenario gccross: rows carry no owner tag, so equal rows are interned by reference from several owner nodes; reads of intern_ref references are top-level lookups only, allowed when the value the documented re-pointing algorithm points at is still held by its owner. Non-trivial: at least one GC that both kept and discarded nodes. Distinct = distinct canonical case hash.",
             nontrivial_counter: "nontrivial.c03",
         },
         "C04" => Plan {
